@@ -561,3 +561,6 @@ pub fn run(ctx: &Ctx) -> (Acc, String, bool) {
     (acc, rule, false)
 }
 
+
+pub const ASSUMPTIONS: &[&str] = &["reference arithmetic: i128 for integers, IEEE f64 (Rust core) for floats incl. powf/fmod",
+            "shift that moves bits out of 32 bits may answer unit or the two's-complement pattern; float // may answer integer or integral float (DESIGN C09)",];
